@@ -247,6 +247,20 @@ def weigh_det(g, wmode, wseed, cands):
         members = [p for p in cands if p in g]
         k = min(len(members), rng.randint(1, 6))
         samples = [rng.choice(members) for _ in range(k)] if members else []
+        # also samples OUTSIDE the grammar whose offending symbols are leaves (add_count ignores
+        # those occurrences; an offending function head raises KeyError and is not used here)
+        outside = []
+        for q in cands:
+            if q in g or len(outside) >= 2 or rng.random() < 0.5:
+                continue
+            try:
+                ProbDetGrammar.pcfg_from_samples(g, [q])
+            except (KeyError, IndexError):
+                continue
+            outside.append(q)
+        if samples and outside:
+            samples = samples + outside
+            rng.shuffle(samples)
         pg = ProbDetGrammar.pcfg_from_samples(g, samples)
         return pg, 3, [], [O.prog_wire(p) for p in samples]
     raise ValueError(wmode)
